@@ -1,0 +1,22 @@
+//go:build verif
+
+// Verification hook (add-only, compiled only with -tags verif): synchronous access to the pipeline entry points and
+// to the per-thread tables, for the PIT/CS correspondence harness. No behaviour change.
+package fw
+
+import (
+	"github.com/named-data/ndnd/fw/defn"
+	"github.com/named-data/ndnd/fw/table"
+)
+
+// VerifPitcsIncomingInterest runs the incoming Interest pipeline synchronously.
+func VerifPitcsIncomingInterest(t *Thread, p *defn.Pkt) { t.processIncomingInterest(p) }
+
+// VerifPitcsIncomingData runs the incoming Data pipeline synchronously.
+func VerifPitcsIncomingData(t *Thread, p *defn.Pkt) { t.processIncomingData(p) }
+
+// VerifPitcsTable returns the thread's PIT-CS table.
+func VerifPitcsTable(t *Thread) table.PitCsTable { return t.pitCS }
+
+// VerifPitcsDnl returns the thread's dead nonce list.
+func VerifPitcsDnl(t *Thread) *table.DeadNonceList { return t.deadNonceList }
